@@ -371,6 +371,8 @@ func Check() *common.Check {
 	return &common.Check{
 		ID:    "C04",
 		Level: "exploration",
+		// every case is recorded before it runs: a fatal error or a hang of the worker is attributed to it
+		CrashSafe: true,
 		Rule: "lexgen catalogue (every documented operator and punctuation mark, numbers, strings with every documented escape, multi-line / Unicode / dollar-quoted strings, " +
 			"quoted, backtick and Unicode identifiers, placeholders, keywords in three letter cases): ALL ordered pairs x separator classes (none, space, tab, LF, CRLF, line comment, block comment; their 36 ordered pairs over the reduced alphabet in quick, over all pairs in thorough; " +
 			"'none' and comment adjacency only where the reference maximal-munch lexer reads exactly the placed lexemes), ALL triples over the reduced alphabet x separator pairs, every lexeme first/last under every leading/trailing separator, " +
